@@ -60,6 +60,86 @@ def big_packet_scenario(r, it, modes=(3,)):
     sim.meta = {"cfg": cfg, "fragments": nfr, "lost": sorted(lost)}
     return sim
 
+def count_full_scenario(r, it, modes=(3,)):
+    """Round-7 family (change C02-g): 128..400 tiny packets of a resendable mode submitted in one tick with an open rate window, so that
+    a data frame fills up by its datagram COUNT (127) long before its size limit and the next fragment spills into the following frame;
+    that following frame is lost once while the count-full frame before it arrives and is acknowledged; then the network is fair."""
+    cfg = pick_cfg(r); cfg["fw"] = 4096; cfg["pw"] = r.pick([4096, 4096, 1024]); cfg["bwA"] = cfg["bwB"] = 20_000_000
+    cfg["allocA"] = cfg["allocB"] = 2_000_000
+    sim = Sim(r, cfg, inter=it)
+    lat = r.pick([0, 1_000_000, 10_000_000])
+    ok = Net(latency=lat)
+    def warm(sim, ep):
+        if ep == "A" and sim.tick < 100:
+            for _ in range(4):
+                sim.send("A", r.below(2), 1, F)
+    sim.run(130, 5_000_000, ok, ok, warm)
+    state = {"prev_full": False, "dropped": 0}
+    def fate(sim, ep, idx, f):
+        if ep != "A" or f["kind"] != "D":
+            return None
+        full = len(f["dgs"]) >= 127
+        hit = state["prev_full"] and state["dropped"] < 2 and not full
+        state["prev_full"] = full
+        if hit:
+            state["dropped"] += 1
+            return []
+        return None
+    sim.fate_fn = fate
+    n = r.pick([128, 129, 200, 255, 300, 400])
+    ln = r.pick([1, 2, 2, 3])
+    for j in range(n):
+        sim.send("A", r.below(3), r.pick(list(modes)), ln)
+    sim.run(r.range(60, 120), r.pick([5_000_000, 20_000_000]), ok, ok, probe_every=1)
+    sim.fate_fn = None
+    sim.latency = lat
+    sim.meta = {"cfg": cfg, "tiny": n}
+    return sim
+
+def rtt_drop_scenario(r, it):
+    """Round-7 family (change C09-g): the RTT estimate falls while a Reliable fragment waits in its resend back-off. Warm-up over a slow
+    link (one-way latency 250-400 ms), then a small Reliable packet X every transmission of which is lost until it has been sent three
+    times (its fourth is scheduled 4 x the old RTT ahead); then the link is fast, a few other packets are sent and acknowledged at once
+    (the estimate drops by 10 % per sample, the resend timeout with it), then the application is silent: the sync timer - max(RTO, 2 s)
+    after the last data frame - fires BEFORE X's resend is due. The sync frame must not announce next_packet_id while X is unacknowledged:
+    X has to be delivered, and is_send_pending() must not clear before it is."""
+    cfg = pick_cfg(r); cfg["fw"] = 4096; cfg["pw"] = r.pick([64, 4096]); cfg["bwA"] = cfg["bwB"] = 2_000_000
+    cfg["allocA"] = cfg["allocB"] = 1_000_000
+    sim = Sim(r, cfg, inter=it)
+    slow = Net(latency=r.pick([250_000_000, 300_000_000, 400_000_000]))
+    fast = Net(latency=r.pick([0, 1_000_000, 5_000_000]))
+    dt = 20_000_000
+    def warm(sim, ep):
+        if ep == "A" and sim.tick % 5 == 0:
+            sim.send("A", 1, 1, 200)
+    sim.run(250, dt, slow, slow, warm, probe_every=10)          # 5 s: a dozen RTT samples of 500-800 ms
+    sim.run(60, dt, slow, slow, probe_every=10)                 # everything acknowledged
+    state = {"x": 0}
+    xlen = r.pick([5, 100, 700])
+    sim.send("A", 0, 3, xlen)
+    xdig = sim.sent["A"][-1].frag_fnv[0]
+    def fate(sim, ep, idx, f):
+        if ep != "A" or f["kind"] != "D":
+            return None
+        if any(d.get("dfnv") == xdig for d in f["dgs"]) and state["x"] < 3:
+            state["x"] += 1
+            return []
+        return None
+    sim.fate_fn = fate
+    for _ in range(400):                                        # up to 8 s: sent at 0, +RTT, +3 RTT
+        if state["x"] >= 3 or sim.dead:
+            break
+        sim.run(1, dt, slow, slow)
+    # the link becomes fast; a handful of packets, acknowledged within a tick each
+    for _ in range(r.range(6, 10)):
+        sim.send("A", 1, 1, 100)
+        sim.run(1, dt, fast, fast, probe_every=1)
+    sim.run(r.range(150, 200), dt, fast, fast, probe_every=5)   # 3-4 s of silence: the sync timer fires, X's resend comes due
+    sim.fate_fn = None
+    sim.latency = fast.latency
+    sim.meta = {"cfg": cfg, "x_transmissions_lost": state["x"]}
+    return sim
+
 def finish(sim, drain=True, max_ticks=700):
     ok = None
     if drain:
